@@ -203,6 +203,31 @@ def analysis_commands(c):
     return ob
 
 
+def migrate_unreferenced(c):
+    """`tally up --migrate` on a budget whose legacy CSV has rules AND whose config folder already holds a merchants.rules that
+    settings.yaml does not name yet - with rules in it, or with only transforms / variables / comments: whatever it holds is the
+    user's and must survive (as itself or as merchants.rules.bak)."""
+    pool()
+
+    def ob(rules_empty: bool, views: bool, bak: bool, crlf: bool, explicit_output: bool) -> bool:
+        """
+        post: _
+        """
+        from engine import fsx
+        import shutil
+        st = {'rules': True, 'rules_empty': bool(rules_empty), 'csv': True, 'csv_empty': False, 'views': bool(views), 'views_line': bool(views), 'rules_line': False,
+              'bak': bool(bak), 'crlf': bool(crlf), 'output': bool(explicit_output)}
+        root = build(st)
+        cmd = COMMANDS[c]
+        before = fsx.snapshot(root)
+        run(cmd, root, migrate=True, explicit_output=bool(explicit_output), embedded=not explicit_output)
+        after = fsx.snapshot(root)
+        ok = frame_ok(before, after, cmd, True, st)
+        shutil.rmtree(root, ignore_errors=True)
+        return post(ok)
+    return ob
+
+
 def init_command(rules, csv):
     pool()
 
@@ -303,6 +328,9 @@ def obligations(tier, seed):
     for c, name in enumerate(COMMANDS):
         obs.append(Obligation(id=f'readonly-{name}', factory='analysis_commands', params={'c': c}, timeout=to, group='analysis commands are read-only',
                               bounds=f'`tally {name}`; symbolic: merchants.rules (+ merchants_file line) / legacy CSV / views.rules present, views_file line, --migrate, --output'))
+    for c in ((0, 1) if q else (0, 1, 2)):
+        obs.append(Obligation(id=f'migrate-unreferenced-{COMMANDS[c]}', factory='migrate_unreferenced', params={'c': c}, timeout=to, group='migration keeps what exists',
+                              bounds=f'`tally {COMMANDS[c]} --migrate`, legacy CSV with rules and a merchants.rules that settings.yaml does not name; symbolic: that file holds rules / only transforms, views.rules (+line), older .bak, CRLF settings, --output'))
     for rules in (False, True):
         for csv in (False, True):
             obs.append(Obligation(id=f'init-rules{int(rules)}-csv{int(csv)}', factory='init_command', params={'rules': rules, 'csv': csv}, timeout=to, group='init keeps existing files',
